@@ -122,6 +122,12 @@ def traced_source():
     s += func("rec_inner", "a, depth=0", ind="    ", pre="_me = rec_inner")
     s += func("rec_gen", "a", ind="    ", kind="gen", pre="_me = rec_gen")
     s += "    return {'rec': rec_inner, 'gen': rec_gen}\n\n\n_NESTED = _make_nested()\n\n\n"
+    # a class that becomes a module global only LATER (a placeholder `LateKls = None` is re-bound while the program runs:
+    # a plugin registered at run time, a re-executed notebook cell); its static method is reachable only through the
+    # scan of the module's global classes
+    s += "LateKls = None\n\n\nclass _LateHolder:\n    class cls:\n"
+    s += func("late_static", "a, b=3", ind="        ", deco="staticmethod")
+    s += "\n"
     # a function that no lookup stage of get_func can reach (not a global, not on a class, no local)
     s += func("h_hidden", "a")
     s += "_HIDDEN = {'h': h_hidden}\ndel h_hidden\n"
@@ -145,6 +151,8 @@ TARGETS = {
         dict(name="f_kwonly", maker="lambda: M.f_kwonly", sig="M.f_kwonly", selfargs="[]", kwonly="a"),
         dict(name="f_wrapped", maker="lambda: M.f_wrapped", sig="M.f_wrapped.__wrapped__", selfargs="[]"),
         dict(name="trace_types", maker="lambda: M.trace_types", sig="M.trace_types", selfargs="[]"),
+        dict(name="LateKls.late_static", maker="lambda: (setattr(M, 'LateKls', M._LateHolder.cls), M.LateKls.late_static)[1]",
+             sig="M._LateHolder.cls.__dict__['late_static'].__func__", selfargs="[]"),
         dict(name="Kls.m_inst", maker="lambda: OBJ.m_inst", sig="M.Kls.m_inst", selfargs="[OBJ]"),
         dict(name="Kls.m_inst(inherited)", maker="lambda: SUB.m_inst", sig="M.Kls.m_inst", selfargs="[SUB]"),
         dict(name="Sub.m_over", maker="lambda: SUB.m_over", sig="M.Sub.m_over", selfargs="[SUB]"),
